@@ -38,8 +38,8 @@ CLAIMED.update({
                 text='on every explored path the score attached to every returned tree equals tags + dependencies by head flags + root attachment - penalty per unary node, symbolically for the back-pointer tree and numerically for the delivered Tree objects'),
     'C10': dict(_A, design='§8 C10', technique='symbolic execution of parsing.h with nbest 2-3; z3 discharges count/order/k-largest against the CKY oracle per path; native replay',
                 text='for every score matrix within the bounds the n-best list has min(k, #derivations) pairwise different trees in non-increasing order whose scores dominate every derivation not returned'),
-    'C12': dict(_A, design='§8 C12', technique='symbolic execution of parsing.h enumerates paths; the Tree delivered by the real retrieve_tree for each path witness must carry label, symbol and head direction of the grammar result with the recorded rule id',
-                text='parser side: on every explored path every node of every delivered tree carries the creating rule\'s label/symbol/head direction, also when several results exist for the same children (reader side: not claimed yet in this build)'),
+    'C12': dict(_A, engine='A+N+P', design='§8 C12', technique='symbolic execution of parsing.h enumerates paths; the Tree delivered by the real retrieve_tree for each path witness must carry label, symbol and head direction of the grammar result with the recorded rule id',
+                text='parser side: on every explored path every node of every delivered tree carries the creating rule\'s label/symbol/head direction, also when several results exist for the same children reader side (Engine P): grammar-licensed derivations printed as auto/ptb/xml/jigg_xml read back with the creating rule\'s label (and head direction where the format has no head field); underivable nodes come back as unk'),
     'C16': dict(_A, design='§8 C16', technique='symbolic execution of parsing.h incl. the beam loop (exp modelled exactly for exp/exp); z3 discharges "leaf within beam" and "failure implies no derivation inside the beam" per path; native replay',
                 text='for every tag-score matrix within the bounds, every pruning_size in 1..3 and beta in {0.5,0.05,1e-5} or filter off: no returned tree uses a tag outside the stated beam, and a parse fails only if no derivation lies inside the tie-strict beam'),
 })
@@ -58,6 +58,10 @@ CLAIMED.update({
                 text='for every document/dictionary within the bounds each cell keeps its value or becomes the large negative value exactly as stated, dependency scores and token order are untouched; every shipped dictionary category is in the inventory and every shipped category string is well formed'),
     'C11': dict(engine='P+Z+A+N', design='§8 C11', note=NOTE_P + '; ' + NOTE_A, technique='symbolic execution of depccg.parsing.run with the worker completion order as a solver variable; z3 proof of the chunk arithmetic generated from the AST of _chunks; native batches built from solver witnesses of the search paths',
                 text='for every batch <= 6, process count <= 4, chunk size and every completion order the result list is aligned with the input; chunk slices are contiguous/ordered/non-empty/covering for len <= 10^6; misfitting shapes are rejected before parsing; each witness sentence gets the same result alone, after/before another sentence, around a too-long sentence, twice in a batch and through a real 2-process pool'),
+})
+CLAIMED.update({
+    'C15': dict(engine='P', design='§8 C15', technique='symbolic execution (forks over lexicon/rule results, symbolic token attributes) of xml_of->read_xml, to_jigg_xml->read_jigg_xml, build_ccg_tree, normalize_tokens (regex chain through the engine\'s matcher) on z3; replay through real XML text and lxml',
+                text='within the bounds C&C XML reads back to the same tree, labels and token attributes, Jigg XML to the same categories/shape/words; every Jigg sentence is self-contained (unique span ids, resolving references, tiling offsets, one root), ccg2lambda\'s tree builder rebuilds an isomorphic tree with the rule labels, token names are normalised; one recorded finding (label of an equal-result rule)'),
 })
 REASONS = {}
 def main():
